@@ -314,3 +314,22 @@ def gate_files(ck, rels):
         hits = section_aware_forbidden(f)
         if hits:
             ck.proof_broken("forbidden vernacular in %s" % os.path.relpath(f, VERIF), json.dumps(hits[:10]))
+
+
+def gen_c27_sync():
+    """facts about the open-documents version that a workspace reload relies on (read by lib/c29_c30_anchors.py,
+    the same reader C29 uses), written to C27's own generated file so that C27 does not depend on when C29 last ran"""
+    import c29_c30_anchors as A
+    try:
+        facts = A.c29_facts(REPO)
+    except A.AnchorError as ex:
+        raise Anchor(str(ex))
+    t = "(** GENERATED by checks/ls_dispatch_common.py (reader lib/c29_c30_anchors.py) from /repo — do not edit; regenerated on every run. *)\n"
+    t += "(* crates/emmylua_ls/src/context/workspace_manager.rs : sync_open_file / close_open_file bump open_file_state_version on EVERY call *)\n"
+    t += "Definition sync_bumps_always : bool := %s.\n" % ("true" if facts["sync_bumps_always"] else "false")
+    t += "Definition close_bumps_always : bool := %s.\n" % ("true" if facts["close_bumps_always"] else "false")
+    t += "(* the handlers write the editor text before the analysis; the reload = snapshot, clear, init_analysis, version loop under reload_lock *)\n"
+    t += "Definition handler_sections_ok : bool := %s.\n" % ("true" if facts["handler_sections_ok"] else "false")
+    t += "Definition reload_sections_ok : bool := %s.\n" % ("true" if facts["reload_sections_ok"] else "false")
+    write_if_changed(os.path.join(COQ, "theories", "Gen", "C27_Sync.v"), t)
+    return facts
